@@ -16,6 +16,8 @@
                                  object number survives, so a number whose newest entry is free is
                                  not collected for loading, and an in-use number is loaded from its
                                  newest offset.
+  FOLLOW-UP (C03b): the composition with the loading stage - the statement about the FINAL CONTEXT - is in
+  Props/C04Ctx.lean (`newest_wins_written_partial`, Lemmas/LoaderStage.lean).
   `_partial`: the statement of C04 is about the final context.  The step from "entries collected"
   to "objects defined" is the object-loading stage (C03's staged theorems); it is NOT closed here
   for object-stream members, and the theorem needs stable generations - both exclusions are real
